@@ -9,10 +9,12 @@ CONSTANTS
   StartId = 1
   StartSerial = 0
   StartCtr = 0
+  Observed = FALSE
   StaleReads = FALSE
   LockEnforced = FALSE
 INVARIANT Unique
 INVARIANT NoReissue
+INVARIANT IssuedIsSequence
 INVARIANT CreationInForce
 INVARIANT RefUnique
 POSTCONDITION TraceAccepted
